@@ -7,6 +7,8 @@ import traceback
 sys.path.insert(0, os.path.dirname(os.path.abspath(__file__)))
 import lib  # noqa: E402
 
+sys.setrecursionlimit(20000)  # printers recurse over expression trees (long sums from arithmetised conditions)
+
 
 def main():
     ap = argparse.ArgumentParser()
